@@ -19,7 +19,7 @@ func init() {
 		ID:    "C15",
 		Level: "exploration",
 		Rule: "cases: histories of up to 40 InsertObject / DeleteObject / SetResources calls on one PolicyEngine - empty at first and filled one by one or through the bulk setter, or created by NewPolicyEngineWithObjects from the initial objects - (pods with controller owners - several per owner - relabelled, re-ported, added, deleted; namespaces inserted, relabelled, deleted; NetworkPolicies inserted, deleted, deleted+reinserted changed; ANPs inserted in non-priority order and deleted through the inserted or an equal fresh object; the BANP inserted, deleted, replaced; deletes of never-inserted objects of every kind; ClearResources followed by the return of the namespaces and pods with only some of the policies; a SetResources call that fails half-way, judged against both readings of what a failed batch leaves behind), with a fixed query set (pod pairs x boundary ports x TCP/UDP) asked after every step; " +
-			"oracle: the history engine's answer must equal the answer of a fresh engine built with NewPolicyEngineWithObjects from the objects current at that moment (the reference model is consulted too: where fresh engine and model disagree the query is not judged here); the engine's own cache-hit counter, read around every query, says which answers came out of the cache; " +
+			"oracle: the history engine's answer must equal the answer of a fresh engine built with NewPolicyEngineWithObjects from the objects current at that moment (the reference model is consulted too: where the comparison engine and the model disagree, an engine built for that single question arbitrates - the comparison engine answers many questions and may be misled by its own memory -, and if that one disagrees with the model too the query is not judged here); the engine's own cache-hit counter, read around every query, says which answers came out of the cache; " +
 			"non-trivial = at least one answer after an update came from the cache and at least one answer changed over the history; distinct = hash of the operation sequence",
 		Assumptions:       []string{"current objects = the objects of the successful calls so far (model state kept by the harness)", "a NetworkPolicy is updated by delete + insert (InsertObject rejects an existing name)"},
 		NumCases:          func(tier string, _ int64) int { return tierN(tier, 600, 12000) },
@@ -90,6 +90,25 @@ func runC15(c *run.Ctx) {
 	cfg.Kinds = []string{world.KOwnedPods, world.KOwnedPods, world.KPod}
 	cfg.MinNetPols, cfg.MaxNetPols = 0, 3
 	w := world.GenBase(g, cfg)
+	if g.P(0.3) {
+		// two owner-less pods in ONE namespace that a policy tells apart, queried from pods that have an owner: whatever is remembered
+		// per owner must not be shared between pods that have none
+		ns := w.Workloads[0].Ns
+		a := world.Workload{Ns: ns, Name: "bare-a", Kind: world.KPod, Labels: map[string]string{"app": "a"}, Ports: []world.CPort{{Num: 80}}}
+		b := world.Workload{Ns: ns, Name: "bare-b", Kind: world.KPod, Labels: map[string]string{"app": "b"}, Ports: []world.CPort{{Num: 80}}}
+		if len(w.Workloads) > 2 {
+			w.Workloads = w.Workloads[:2]
+		}
+		for i := range w.Workloads {
+			if w.Workloads[i].Kind == world.KPod {
+				w.Workloads[i].Kind, w.Workloads[i].NPods, w.Workloads[i].OwnerKind = world.KOwnedPods, 2, world.KReplicaSet
+			}
+		}
+		w.Workloads = append([]world.Workload{a, b}, w.Workloads...)
+		w.NetPols = append(w.NetPols, world.NetPol{Ns: ns, Name: "only-a", PodSel: world.Sel{ML: map[string]string{"app": "a"}}, HasTypes: true, PolicyTypes: []string{"Ingress"},
+			Ingress: []world.NPRule{{Peers: []world.NPPeer{{PodSel: &world.Sel{ML: map[string]string{"app": "nobody"}}}}}}})
+		r.Ev("worlds_with_two_bare_pods_told_apart", 1)
+	}
 	world.GenNetPols(g, w, cfg)
 	if g.P(0.7) {
 		world.GenAdmin(g, w, cfg, 0, 3, 0.5)
@@ -226,6 +245,16 @@ func runC15(c *run.Ctx) {
 								r.Violate("c15.total", "c15.total:query:panic", "an answer", "panic: "+a.Panic, key)
 							}
 							continue
+						}
+						if b.Panic == "" && !b.HasErr && b.Allowed != mc.Has(pr, p) {
+							// the comparison engine is asked many questions too and may be misled by its own memory: ask an engine built
+							// for this one question; if IT agrees with the model, it is the arbiter
+							if one, cr1 := observe.NewEngineWithObjects(objs); cr1.Panic == "" && !cr1.HasErr {
+								if c1 := one.Check(s.name, d.name, pr, fmt.Sprint(p)); c1.Panic == "" && !c1.HasErr && c1.Allowed == mc.Has(pr, p) {
+									r.Ev("arbitrated_by_a_single_question_engine", 1)
+									b = c1
+								}
+							}
 						}
 						if b.Panic != "" || b.HasErr || b.Allowed != mc.Has(pr, p) {
 							r.Ev("fresh_vs_model_disagreements_not_judged", 1)
